@@ -49,6 +49,13 @@ class CleanPass(FunctionPass):
             if block in predecessors:
                 continue
 
+            # Do not remove when a predecessor jumps to the successor as
+            # well: the phis over there have one value per incoming block
+            # and could not tell the two edges apart.
+            tgt = block.last_instruction.target
+            if tgt.phis and any(p in tgt.predecessors for p in predecessors):
+                continue
+
             # Update successor incoming blocks:
             for successor in successors:
                 successor.replace_incoming(block, predecessors)
@@ -111,7 +118,11 @@ class CleanPass(FunctionPass):
             block1.add_instruction(instruction)
 
         # Replace incoming info:
+        successors = []
         for successor in block2.successors:
+            if successor not in successors:
+                successors.append(successor)
+        for successor in successors:
             successor.replace_incoming(block2, [block1])
 
         # Remove block from function:
